@@ -10,6 +10,7 @@ import csv
 import importlib.util
 import math
 import os
+import time
 from fractions import Fraction as F
 
 import numpy as np
@@ -266,6 +267,11 @@ def gen_sa(tier, seed):
     yield {'zone': 54, 'north': 6543210.123, 'easts': [2e5, 3e5, 4e5, 5e5, 6e5, 7e5, 8e5], 'mode': 'csv', 'dupids': True}
     yield {'zone': 55, 'north': 6.2e6, 'easts': es, 'mode': 'csv', 'spell': 1}
     yield {'zone': 50, 'north': 5813614.161, 'easts': [321405.559, 444444.4444, 5e5, 612345.678, 7e5, 100000.5, 2e5, 3e5], 'mode': 'csv', 'spell': 1}
+    # what an EARLIER run left in the directory: the same job name converted again after the input was replaced by another file
+    # (moved / extracted / checked out over it, so possibly carrying an OLDER time stamp than the previous output), by a shorter one,
+    # by an identical one
+    for how in ('older-mtime', 'shorter', 'same-name-newer', 'output-readonly-then-removed'):
+        yield {'zone': 55, 'north': 6251064.8483, 'easts': [3e5, 444444.4444, 612345.6789, 7.1e5, 2.2e5], 'mode': 'csv', 'rerun': how}
     # the AMOUNT of input: files larger than the usual buffer sizes (8 KiB, 64 KiB, 1 MiB; thorough: 4 MiB) - every row comes out
     for nrows in ([250, 2000, 30000] if tier == 'quick' else [250, 2000, 30000, 110000]):
         yield {'zone': 55, 'north': 6251064.8483, 'easts': [], 'nrows': nrows, 'mode': 'csv', 'longnames': True}
@@ -303,6 +309,24 @@ def ev_sa(case, rec):
             # the last line of the file without a line terminator (as most editors and many exporters leave it)
             raw = open(fn_in, 'rb').read()
             open(fn_in, 'wb').write(raw[:-len(eol)])
+        if case.get('rerun'):
+            # previous job under the same name: other points (zone 50, other eastings), more of them
+            how = case['rerun']
+            prev = os.path.join(d, 'prev.csv')
+            os.replace(fn_in, os.path.join(d, 'new.csv'))
+            with open(prev, 'w', newline='') as f:
+                w = csv.writer(f, lineterminator=eol)
+                for i in range(9):
+                    w.writerow(['OLD%d' % i, 50, repr(2.5e5 + 5.0e4 * i), repr(7.0e6 + 1000.0 * i)])
+            os.replace(prev, fn_in)
+            rec.call(m.grid2geoio, fn_in)
+            if how == 'older-mtime':
+                os.utime(os.path.join(d, 'new.csv'), (1.0e9, 1.0e9))
+            os.replace(os.path.join(d, 'new.csv'), fn_in)
+            if how == 'same-name-newer':
+                os.utime(fn_in, (time.time() + 5, time.time() + 5))
+            if how == 'output-readonly-then-removed':
+                os.remove(os.path.join(d, 'pts_out.csv'))
         st, msg = rec.call(m.grid2geoio, fn_in)
         if st != 'ok':
             rec.fail('batch converter raised on a well-formed csv', site='Standalone:grid2geoio', observed=msg)
